@@ -118,6 +118,25 @@ func init() {
 			},
 		}
 	})
+	// an abandoned Ping leaves its PINGRESP outstanding; the next Ping of the
+	// same goroutine meets it at any stage of its own submission
+	register("pingpair", func() *Scenario {
+		return &Scenario{
+			Config:   baseConfig(),
+			Volatile: true,
+			Actors: []ActorSpec{
+				{Name: "reader", Reader: &ReaderSpec{Backoff: true}},
+				{Name: "E", Ops: []Op{{Kind: "ping", Quit: quitLater}, {Kind: "ping"}, {Kind: "ping", Quit: quitLater}}},
+				{Name: "A", Ops: []Op{{Kind: "pub0", Topic: "p/a", Msg: []byte("A-payload")}}},
+			},
+			Faults:  Faults{WriteCuts: cutsEdge, WriteErr: true, WriteTimeout: true, NoResponse: true, Cut: true},
+			Horizon: 2000,
+			Final: func(w *World) {
+				w.monitorWire()
+				w.monitorRequests()
+			},
+		}
+	})
 	mkShutdown := func(closers []ActorSpec, lazy bool) func() *Scenario {
 		return func() *Scenario {
 			actors := []ActorSpec{
